@@ -116,6 +116,12 @@ pub fn generate_with(rng: &mut Rng, pp: &mut ParsedPacket, max_ops: usize, first
     let mut ops: Vec<String> = vec![];
     let mut sigs: Vec<String> = vec![];
     let nops = rng.range(1, max_ops);
+    if rng.chance(1, 3) {
+        // one err variable for the whole script (never reset, uninitialised at first), as the sample hook has it
+        s.u8(13);
+        s.u8(1);
+        ops.push("[one err variable for the whole script]".into());
+    }
     for opi in 0..nops {
         let sel = match (opi, first) {
             (0, Some(f)) => f,
@@ -571,6 +577,10 @@ struct RRun<'a> {
     cb_count: usize,
     cb_calls: usize,
     edns: bool,
+    /// the hook's `const CErr *err` variable: a fresh NULL one per call, or ONE variable for the whole script,
+    /// never reset and uninitialised at first (as the sample hook in c_hook.c keeps it)
+    persist: bool,
+    perr: *const CErr,
 }
 
 impl<'a> RRun<'a> {
@@ -598,6 +608,9 @@ impl<'a> RRun<'a> {
     }
     /// mode 0: description compared byte for byte; 1: err == NULL; 2: only "a description is retrievable"
     unsafe fn lg_ret_mode(&mut self, ret: c_int, err: *const CErr, mode: u8) {
+        if self.persist && mode != 1 {
+            self.perr = err; // the variable keeps whatever the call left in it
+        }
         self.log.u8(if ret == 0 { 0 } else if ret == -1 { 1 } else { 2 });
         if mode == 1 {
             self.log.u8(0xfe);
@@ -674,7 +687,7 @@ impl<'a> RRun<'a> {
                     let ne = self.rd8() != 0;
                     let len = self.rd16() as usize;
                     let b = self.rdn(len).into_boxed_slice();
-                    let mut err: *const CErr = std::ptr::null();
+                    let mut err: *const CErr = self.perr;
                     let ret = (self.t.set_raw_name)(it, if ne { std::ptr::null_mut() } else { &mut err }, b.as_ptr(), len);
                     self.log.u8(0x18);
                     self.lg_ret(ret, err, ne);
@@ -685,14 +698,14 @@ impl<'a> RRun<'a> {
                     let n = self.rdn(nlen).into_boxed_slice();
                     let zlen = self.rd16() as usize;
                     let z = self.rdn(zlen).into_boxed_slice();
-                    let mut err: *const CErr = std::ptr::null();
+                    let mut err: *const CErr = self.perr;
                     let ret = (self.t.set_name)(it, if ne { std::ptr::null_mut() } else { &mut err }, n.as_ptr() as *const c_char, nlen, if zlen > 0 { z.as_ptr() } else { std::ptr::null() }, zlen);
                     self.log.u8(0x19);
                     self.lg_ret(ret, err, ne);
                 }
                 10 => {
                     let ne = self.rd8() != 0;
-                    let mut err: *const CErr = std::ptr::null();
+                    let mut err: *const CErr = self.perr;
                     let ret = (self.t.delete)(it, if ne { std::ptr::null_mut() } else { &mut err });
                     self.log.u8(0x1a);
                     self.lg_ret(ret, err, ne);
@@ -725,13 +738,18 @@ unsafe extern "C" fn rust_cb(ctx: *mut c_void, it: It) -> bool {
 
 /// Replay `script` through the exported table, as a hook written in Rust would.
 pub fn rust_driver(t: &RawTable, pp: &mut ParsedPacket, script: &[u8]) -> Vec<u8> {
-    let mut r = RRun { t, s: script, pos: 0, log: Buf::default(), cb_count: 0, cb_calls: 0, edns: false };
+    let mut r = RRun { t, s: script, pos: 0, log: Buf::default(), cb_count: 0, cb_calls: 0, edns: false, persist: false, perr: std::ptr::null() };
     let ppp: *mut ParsedPacket = pp;
     unsafe {
         loop {
             let op = r.rd8();
             match op {
                 0 => break,
+                13 => {
+                    r.persist = r.rd8() != 0;
+                    // "uninitialised": never to be read by the table
+                    r.perr = if r.persist { std::ptr::without_provenance::<CErr>(1) } else { std::ptr::null() };
+                }
                 1 => {
                     r.log.u8(1);
                     let v = (t.flags)(ppp);
@@ -815,7 +833,7 @@ pub fn rust_driver(t: &RawTable, pp: &mut ParsedPacket, script: &[u8]) -> Vec<u8
                     let len = r.rd16() as usize;
                     let text = r.rdn(len);
                     let c = CString::new(text).unwrap_or_default();
-                    let mut err: *const CErr = std::ptr::null();
+                    let mut err: *const CErr = r.perr;
                     let ret = (t.add[sec.min(3)])(ppp, if ne == 1 { std::ptr::null_mut() } else { &mut err }, c.as_ptr());
                     r.log.u8(8);
                     r.lg_ret_mode(ret, err, ne);
@@ -850,7 +868,7 @@ pub fn rust_driver(t: &RawTable, pp: &mut ParsedPacket, script: &[u8]) -> Vec<u8
                     let sl = r.rd16() as usize;
                     let sn = r.rdn(sl).into_boxed_slice();
                     let suf = r.rd8() != 0;
-                    let mut err: *const CErr = std::ptr::null();
+                    let mut err: *const CErr = r.perr;
                     let ret = (t.rename)(ppp, if ne { std::ptr::null_mut() } else { &mut err }, tn.as_ptr(), tl, sn.as_ptr(), sl, suf);
                     r.log.u8(11);
                     r.lg_ret(ret, err, ne);
@@ -861,7 +879,7 @@ pub fn rust_driver(t: &RawTable, pp: &mut ParsedPacket, script: &[u8]) -> Vec<u8
                     let n = r.rdn(len).into_boxed_slice();
                     let mut out: Box<[u8; 256]> = Box::new([0x5c; 256]);
                     let mut raw_len: size_t = 0xdddd;
-                    let mut err: *const CErr = std::ptr::null();
+                    let mut err: *const CErr = r.perr;
                     let ret = (t.raw_name_from_str)(out.as_mut_ptr(), &mut raw_len, if ne { std::ptr::null_mut() } else { &mut err }, n.as_ptr() as *const c_char, len);
                     r.log.u8(12);
                     r.lg_ret(ret, err, ne);
